@@ -163,6 +163,10 @@ func (s *Stump) add(adds []Hash) ([]Hash, []uint64, []uint64) {
 		// In this loop below, we're looking for these roots by checking if there's
 		// a '1'. If there is a '1', we'll hash the root being added with that root
 		// until we hit a '0'.
+		// The added leaf is always part of the update data, also when it
+		// isn't hashed with any existing root and ends up as a root itself.
+		updatedNodes[add] = pos
+
 		newRoot := add
 		for h := uint8(0); (s.NumLeaves>>h)&1 == 1; h++ {
 			root := s.Roots[len(s.Roots)-1]
